@@ -415,3 +415,110 @@ CONTRACTS["autoarray.inversion.regularization.exponential_kernel:exp_cov_matrix_
 CONTRACTS[U + "constant_regularization_matrix_from"].nontrivial = lambda neighbors_sizes, **kw: bool(neighbors_sizes.sum() > 0)
 CONTRACTS[U + "weighted_regularization_matrix_from"].nontrivial = lambda neighbors_sizes, **kw: bool(neighbors_sizes.sum() > 0)
 CONTRACTS[U + "reg_split_from"].nontrivial = lambda splitted_mappings, **kw: len(splitted_mappings) > 0
+
+
+# ==================================================================================================== quadratic form (constant scheme)
+# x^T H x = 1e-8 |x|^2 + c^2 * sum over neighbouring pairs (x_a - x_b)^2, derived from the ENTRYWISE contract alone.
+# The pair sum is written over the square: (1/2) sum_a sum_b mult(a, b) (x_a - x_b)^2 -- every unordered neighbouring pair
+# {a, b} of a symmetric table occurs as (a, b) and as (b, a).  The proof is a chain of inductive lemmas (row action of H,
+# binomial expansion of a row of the pair sum, row sums of mult = degree, the handshake identity
+# sum_a sum_b mult(a, b) x_b^2 = sum_b deg(b) x_b^2 for symmetric tables (a Fubini exchange), row-by-row assembly).
+macro("c07_QR", ["H", "x", "a", "m"], "sumto(m, lambda b: x[a] * H[a, b] * x[b])")                       # x_a (H x)_a, first m columns
+macro("c07_M0", ["nb", "sz", "a", "m"], "sumto(m, lambda b: c07_mult(nb, sz, a, b))")
+macro("c07_M1", ["x", "nb", "sz", "a", "m"], "sumto(m, lambda b: c07_mult(nb, sz, a, b) * x[a] * x[b])")
+macro("c07_M2", ["x", "nb", "sz", "a", "m"], "sumto(m, lambda b: c07_mult(nb, sz, a, b) * x[b] * x[b])")
+macro("c07_DR", ["x", "nb", "sz", "a", "m"], "sumto(m, lambda b: c07_mult(nb, sz, a, b) * (x[a] - x[b]) * (x[a] - x[b]))")
+macro("c07_CS", ["nb", "sz", "b", "n"], "sumto(n, lambda a: c07_mult(nb, sz, a, b))")                    # column sums of mult
+_QSHP = "nb.shape[0] == P and sz.shape[0] == P and forall(0, P, lambda i: 0 <= sz[i] and sz[i] <= nb.shape[1])"
+_QT = _QSHP + " and forall(0, P, lambda i: forall(0, sz[i], lambda k: 0 <= nb[i, k] and nb[i, k] < P))"
+_QH = ("H.shape[0] == P and H.shape[1] == P and forall(0, P, lambda a: forall(0, P, lambda b:"
+       " H[a, b] == -cc * c07_mult(nb, sz, a, b) + (1e-08 + cc * sz[a] if a == b else 0)))")
+_QS = "forall(0, P, lambda a: forall(0, P, lambda b: c07_mult(nb, sz, a, b) == c07_mult(nb, sz, b, a)))"
+
+# number of k < K with nb[a, k] < m
+spec_fn("c07_cl", params=[("nb", "int[2]"), ("a", "int"), ("m", "int"), ("K", "int")], ret="int",
+        axioms=["forall(0, nb.shape[0], lambda a: forall(0, nb.shape[0] + 1, lambda m: c07_cl(nb, a, m, 0) == 0, pat=c07_cl(nb, a, m, 0)))",
+                "forall(0, nb.shape[0], lambda a: forall(0, nb.shape[0] + 1, lambda m: forall(0, nb.shape[1], lambda K:"
+                " c07_cl(nb, a, m, K + 1) == c07_cl(nb, a, m, K) + (1 if nb[a, K] < m else 0), pat=c07_cl(nb, a, m, K + 1))))"],
+        py=lambda nb, a, m, K: int(sum(1 for k in range(K) if nb[a, k] < m)))
+
+
+def _G_py(x, nb, sz, n, m):
+    return float(sum(x[b] ** 2 * sum(_cnt_py(nb, a, b, sz[a]) for a in range(n)) for b in range(m)))
+
+
+# sum_{b < m} x_b^2 * (sum_{a < n} mult(a, b))
+spec_fn("c07_G", params=[("x", "real[1]"), ("nb", "int[2]"), ("sz", "int[1]"), ("n", "int"), ("m", "int")], ret="real",
+        let={"P": "x.shape[0]"},
+        axioms=["implies(" + _QSHP + ", forall(0, P + 1, lambda n: c07_G(x, nb, sz, n, 0) == 0, pat=c07_G(x, nb, sz, n, 0)))",
+                "implies(" + _QSHP + ", forall(0, P + 1, lambda n: forall(0, P, lambda m:"
+                " c07_G(x, nb, sz, n, m + 1) == c07_G(x, nb, sz, n, m) + x[m] * x[m] * c07_CS(nb, sz, m, n), pat=c07_G(x, nb, sz, n, m + 1))))"],
+        py=_G_py)
+
+_QL = []
+
+
+def _lem(name, stmt, induct=None, hi=None, **kw):
+    _QL.append(dict(name=name, induct=induct, lo=0, hi=hi, stmt=stmt, **kw) if induct else dict(name=name, noinduct=True, stmt=stmt, **kw))
+
+
+def _fa(hyp, body, pat):      # forall a in [0, P): hyp => body
+    return "forall(0, P, lambda a: implies(" + hyp + ", " + body + "), pat=" + pat + ")"
+
+
+_T, _TH, _TS, _THS = _QT, _QT + " and " + _QH, _QT + " and " + _QS, _QT + " and " + _QH + " and " + _QS
+_X2 = "sumto({n}, lambda a: x[a] * x[a])"
+_DD = "sumto({n}, lambda a: c07_DR(x, nb, sz, a, P))"
+# row action: x_a (H x)_a = (1e-8 + c^2 deg a) x_a^2 - c^2 sum_b mult(a, b) x_a x_b
+_lem("R1", _fa(_TH, "c07_QR(H, x, a, m) == ((1e-08 + cc * sz[a]) * x[a] * x[a] if a < m else 0) - cc * c07_M1(x, nb, sz, a, m)", "c07_QR(H, x, a, m)"), "m", "P", export=False)
+# binomial expansion of one row of the pair sum
+_lem("R2", _fa(_T, "c07_DR(x, nb, sz, a, m) == x[a] * x[a] * c07_M0(nb, sz, a, m) - 2 * c07_M1(x, nb, sz, a, m) + c07_M2(x, nb, sz, a, m)", "c07_DR(x, nb, sz, a, m)"), "m", "P", export=False)
+# row sums of the multiplicities are the degrees: sum_{b < P} mult(a, b) = sz[a]
+_lem("R3a", "forall(0, P, lambda a: forall(0, P, lambda m: implies(" + _T + " and K <= sz[a], c07_cl(nb, a, m + 1, K) == c07_cl(nb, a, m, K) + c07_cnt(nb, a, m, K)),"
+            " pat=c07_cl(nb, a, m + 1, K)))", "K", "nb.shape[1]", export=False)
+_lem("R3c", _fa(_T + " and K <= sz[a]", "c07_cl(nb, a, 0, K) == 0 and c07_cl(nb, a, P, K) == K", "(c07_cl(nb, a, 0, K), c07_cl(nb, a, P, K))"), "K", "nb.shape[1]", export=False)
+_lem("R3b", _fa(_T, "c07_M0(nb, sz, a, m) == c07_cl(nb, a, m, sz[a])", "c07_M0(nb, sz, a, m)"), "m", "P", export=False)
+_lem("R3", _fa(_T, "c07_M0(nb, sz, a, P) == sz[a]", "c07_M0(nb, sz, a, P)"), export=False)
+_lem("RowQ", _fa(_TH, "c07_QR(H, x, a, P) == (1e-08 + cc * sz[a]) * x[a] * x[a] - cc * c07_M1(x, nb, sz, a, P)", "c07_QR(H, x, a, P)"), export=False)
+_lem("RowD", _fa(_T, "c07_DR(x, nb, sz, a, P) == x[a] * x[a] * sz[a] - 2 * c07_M1(x, nb, sz, a, P) + c07_M2(x, nb, sz, a, P)", "c07_DR(x, nb, sz, a, P)"), export=False)
+# handshake (symmetric table): sum_a sum_b mult(a, b) x_b^2 == sum_b sz_b x_b^2   (exchange of the two sums through c07_G)
+_lem("H1z", "implies(" + _T + ", c07_G(x, nb, sz, 0, m) == 0)", "m", "P", export=False)
+_lem("H1a", "forall(0, P, lambda n: implies(" + _T + ", c07_G(x, nb, sz, n + 1, m) == c07_G(x, nb, sz, n, m) + c07_M2(x, nb, sz, n, m)), pat=c07_G(x, nb, sz, n + 1, m))", "m", "P", export=False)
+_lem("H1b", "implies(" + _T + ", sumto(n, lambda a: c07_M2(x, nb, sz, a, P)) == c07_G(x, nb, sz, n, P))", "n", "P", export=False)
+_lem("H1c", "forall(0, P, lambda b: implies(" + _TS + ", c07_CS(nb, sz, b, n) == c07_M0(nb, sz, b, n)), pat=c07_CS(nb, sz, b, n))", "n", "P", export=False)
+_lem("H1d", "implies(" + _TS + ", c07_G(x, nb, sz, P, m) == sumto(m, lambda b: sz[b] * x[b] * x[b]))", "m", "P", export=False)
+_lem("H1", "implies(" + _TS + ", sumto(P, lambda a: c07_M2(x, nb, sz, a, P)) == sumto(P, lambda b: sz[b] * x[b] * x[b]))", export=False)
+# assembly, row by row (valid for every table; the last bracket vanishes for symmetric tables by H1)
+_lem("F", "implies(" + _TH + ", c07_q(H, x, nb, sz, cc, n) == 1e-08 * " + _X2.format(n="n") + " + (cc / 2) * " + _DD.format(n="n")
+          + " + (cc / 2) * (sumto(n, lambda b: sz[b] * x[b] * x[b]) - sumto(n, lambda a: c07_M2(x, nb, sz, a, P))))", "n", "P", export=False)
+_lem("QF", "implies(" + _THS + ", c07_q(H, x, nb, sz, cc, P) == 1e-08 * " + _X2.format(n="P") + " + (cc / 2) * " + _DD.format(n="P") + ")")
+# the pair sum and |x|^2 are non-negative; |x|^2 > 0 for x != 0
+_lem("N0", "forall(0, P, lambda a: forall(0, P, lambda b: implies(" + _T + " and K <= sz[a], c07_cnt(nb, a, b, K) >= 0), pat=c07_cnt(nb, a, b, K)))", "K", "nb.shape[1]", export=False)
+_lem("N1", _fa(_T, "c07_DR(x, nb, sz, a, m) >= 0", "c07_DR(x, nb, sz, a, m)"), "m", "P", export=False)
+_lem("N2", "implies(" + _T + ", " + _DD.format(n="n") + " >= 0 and " + _X2.format(n="n") + " >= 0 and implies(exists(0, n, lambda a: x[a] != 0), " + _X2.format(n="n") + " > 0))", "n", "P", export=False)
+_lem("PD", "implies(" + _T + ", " + _DD.format(n="P") + " >= 0 and " + _X2.format(n="P") + " >= 0 and implies(exists(0, P, lambda a: x[a] != 0), " + _X2.format(n="P") + " > 0))")
+
+
+def _q_py(H, x, nb, sz, cc, n):
+    return float(sum(x[a] * H[a, b] * x[b] for a in range(n) for b in range(len(x))))
+
+
+# the quadratic form restricted to the first n rows: sum_{a < n} x_a (H x)_a ; c07_q(.., P) = x^T H x
+spec_fn("c07_q", params=[("H", "real[2]"), ("x", "real[1]"), ("nb", "int[2]"), ("sz", "int[1]"), ("cc", "$real"), ("n", "int")], ret="real",
+        let={"P": "x.shape[0]"},
+        axioms=["implies(H.shape[0] == P and H.shape[1] == P, forall(0, P + 1, lambda n: c07_q(H, x, nb, sz, cc, n) == sumto(n, lambda a: c07_QR(H, x, a, P)),"
+                " pat=c07_q(H, x, nb, sz, cc, n)))"],
+        lemmas=_QL, py=_q_py, doc="x^T H x by rows; lemmas: the quadratic-form identity of the constant scheme")
+
+_XHX = "sumto(P, lambda a: sumto(P, lambda b: x[a] * H[a, b] * x[b]))"
+_PAIRS = "sumto(P, lambda a: sumto(P, lambda b: c07_mult(nb, sz, a, b) * (x[a] - x[b]) * (x[a] - x[b])))"
+corollary("C07.quadratic_form.constant", props=["C07"],
+          vars={"c": "real", "nb": "int[2]", "sz": "int[1]", "x": "real[1]"}, let={"P": "nb.shape[0]"},
+          requires=["x.shape[0] == P"] + [r.replace("neighbors_sizes", "sz").replace("neighbors", "nb") for r in _nb()] + [_SYM],
+          calls=[("H", U + "constant_regularization_matrix_from", {"coefficient": "c", "neighbors": "nb", "neighbors_sizes": "sz"})],
+          ensures=["c07_q(H, x, nb, sz, c * c, P) == " + _XHX,
+                   # x^T H x = 1e-8 |x|^2 + c^2 * (1/2) sum_a sum_b mult(a, b) (x_a - x_b)^2
+                   _XHX + " == 1e-08 * sumto(P, lambda a: x[a] * x[a]) + (c * c / 2) * " + _PAIRS,
+                   _XHX + " >= 1e-08 * sumto(P, lambda a: x[a] * x[a])",
+                   "implies(exists(0, P, lambda a: x[a] != 0), " + _XHX + " > 0)"],
+          sentence="for the constant scheme x^T H x = c^2 * sum over neighbouring pairs of squared differences + 1e-8 |x|^2, hence strictly positive definite")
